@@ -155,8 +155,54 @@ fn run_l<L: Language + 'static>(c: &Mixed, obs: &mut Obs) -> Result<(), String> 
     Ok(())
 }
 
+/// classes whose smallest terms are astronomically large (sharing: x(k+1) = (p xk xk), built node by node with EGraph::add) next to
+/// small ones: building the extractor and extracting from the small classes must still work, with the right costs
+fn run_chain(n: &u32, obs: &mut Obs) -> Result<(), String> {
+    let mut eg: EGraph<Core> = EGraph::default();
+    let mut xs: Vec<AppliedId> = vec![eg.add_expr(RecExpr::parse("(v $0)").map_err(|e| format!("{e:?}"))?)];
+    for _ in 0..*n {
+        let x = xs.last().unwrap().clone();
+        xs.push(eg.add(Core::P(x.clone(), x)));
+    }
+    let ex = Extractor::<Core, AstSize>::new(&eg, AstSize);
+    for (k, x) in xs.iter().enumerate() {
+        let best = ex.get_best_cost::<()>(x);
+        let expected: u64 = if k + 1 >= 64 { u64::MAX } else { (1u64 << (k + 1)) - 1 };
+        obs.cmp(1);
+        if best != expected {
+            return Err(format!("level {k} of a doubling chain of {n} levels: reported best cost {best}, the smallest term has {} nodes", if k + 1 >= 64 { "more than 2^64 - 1 (saturated)".to_string() } else { expected.to_string() }));
+        }
+        if k <= 10 {
+            let t = ex.extract(x, &eg);
+            let size = t.to_string().matches(|c| c == '(').count() as u64;
+            if size != expected {
+                return Err(format!("level {k}: extracted a term with {size} nodes, reported cost {best}"));
+            }
+            match lookup_rec_expr(&t, &eg) {
+                Some(b) if eg.eq(&b, x) => {}
+                other => return Err(format!("level {k}: the extracted term looks up to {:?}, queried {:?}", other, x)),
+            }
+        }
+    }
+    obs.nontrivial = *n >= 63;
+    if *n >= 63 {
+        obs.label("costs-beyond-u64");
+    }
+    Ok(())
+}
+
 pub fn property(tier: Tier) -> Property {
     let mut stages: Vec<Box<dyn DynStage>> = Vec::new();
+    stages.push(Box::new(Stage {
+        name: "doubling-chain",
+        source: Source::Enumerate(std::sync::Arc::new(|| Box::new(vec![3u32, 12, 31, 32, 61, 62, 63, 64, 65, 80, 130].into_iter()))),
+        run: run_chain,
+        panic_is_violation: true,
+        render: |n: &u32| format!("x0 = (v $0), x(k+1) = (p xk xk) for {} levels, built with EGraph::add", n),
+        rule: "fixed family: doubling chains of 3 to 130 levels (the smallest term of level k has 2^(k+1) - 1 nodes; from level 63 on more than u64 can count): Extractor::new must succeed, reported best costs are exact below the range and saturated above, the terms of levels 0-10 are extracted, have the reported size and look up to the queried class; non-trivial = the chain goes beyond the u64 range",
+        case_timeout_s: 60,
+        exhaustive: false,
+    }));
     for (name, lang, q, t) in [
         ("extract-core", LangId::Core, 4000u32, 80_000u32),
         ("extract-lambda", LangId::Lambda, 1200, 24_000),
